@@ -215,3 +215,17 @@ Example C11_source_schedule_finishes :
   (forall i, i < 2 -> match c_th c i with Some t => t_k t = [] /\ t_cur t = None /\ t_todo t = [] | None => False end) /\
   c_lock c = None /\ length (c_log c) = 5.
 Proof. exact demo_finishes. Qed.
+
+(* ---- inventory of mutable state (DESIGN.md 2.3).  The models above are functions of their arguments; they are
+   faithful only as long as the code keeps no state between calls beyond what they mention.  The package-level
+   variables and struct fields in the scope of C11 (and which of them are written outside construction, from which
+   entry points) are regenerated from the current source on every run (harness/stategen -> Generated/StateInv.v)
+   and contain no state beyond the expected, reviewed inventory of Sys/StateInvSpec.v, where every piece of state
+   that legitimately exists names the model component that accounts for it.  Breaks when a written package-level
+   variable, a struct field, or a write of a field outside its constructor is added in scope (coqc then prints the
+   differences); tolerates moved declarations, reordered fields, renamed locals, new helpers / constants / tables
+   nothing writes. *)
+From Sdfx Require Sys.StateInvSpec Sys.StateInvC11.
+Theorem C11_state_inventory : Sdfx.Sys.StateInvSpec.state_ok_C11 = true.
+Proof. exact Sdfx.Sys.StateInvC11.C11_state_inventory. Qed.
+Print Assumptions C11_state_inventory.
